@@ -1,4 +1,60 @@
-/* placeholder, filled below */
+/* C12 - contracts and harness vocabulary for the path decoders / normaliser (htp_util.c).
+ * Included AFTER the real sources.  Loop-invariant vocabulary lives in ghost_c12.h. */
 #ifndef C12_PATH_H
 #define C12_PATH_H
+
+/* ---- legal values of the decoder switches (htp_config.h enums) -------------------------------- */
+#define C12_UNWANTED_OK(x) ((x) == HTP_UNWANTED_IGNORE || (x) == HTP_UNWANTED_400 || (x) == HTP_UNWANTED_404)
+#define C12_HANDLING_OK(x) ((x) == HTP_URL_DECODE_PRESERVE_PERCENT || (x) == HTP_URL_DECODE_REMOVE_PERCENT || (x) == HTP_URL_DECODE_PROCESS_INVALID)
+/* every enum-typed switch holds one of its enumerators; boolean switches are unconstrained ints */
+#define C12_DCFG_LEGAL(d) (C12_UNWANTED_OK((d)->path_separators_encoded_unwanted) && C12_UNWANTED_OK((d)->nul_raw_unwanted) && \
+    C12_UNWANTED_OK((d)->control_chars_unwanted) && C12_UNWANTED_OK((d)->u_encoding_unwanted) && \
+    C12_HANDLING_OK((d)->url_encoding_invalid_handling) && C12_UNWANTED_OK((d)->url_encoding_invalid_unwanted) && \
+    C12_UNWANTED_OK((d)->nul_encoded_unwanted) && C12_UNWANTED_OK((d)->utf8_invalid_unwanted))
+
+/* ---- bounded units: build the minimal tx/cfg the decoders touch from the scalar input struct ---- */
+#ifdef PATH_REF_H
+static htp_cfg_t c12_cfg;      /* static: all other fields are zero, natively and in CBMC */
+static htp_tx_t c12_tx;
+static void c12_setup(const ref_cfg_t *c, enum htp_decoder_ctx_t ctx, unsigned char *map, uint64_t flags0, int status0) {
+    htp_decoder_cfg_t *d = &c12_cfg.decoder_cfgs[ctx];
+    d->backslash_convert_slashes = c->backslash_convert_slashes;
+    d->convert_lowercase = c->convert_lowercase;
+    d->path_separators_compress = c->path_separators_compress;
+    d->path_separators_decode = c->path_separators_decode;
+    d->plusspace_decode = c->plusspace_decode;
+    d->path_separators_encoded_unwanted = (enum htp_unwanted_t) c->path_separators_encoded_unwanted;
+    d->nul_raw_terminates = c->nul_raw_terminates;
+    d->nul_raw_unwanted = (enum htp_unwanted_t) c->nul_raw_unwanted;
+    d->control_chars_unwanted = (enum htp_unwanted_t) c->control_chars_unwanted;
+    d->u_encoding_decode = c->u_encoding_decode;
+    d->u_encoding_unwanted = (enum htp_unwanted_t) c->u_encoding_unwanted;
+    d->url_encoding_invalid_handling = (enum htp_url_encoding_handling_t) c->url_encoding_invalid_handling;
+    d->url_encoding_invalid_unwanted = (enum htp_unwanted_t) c->url_encoding_invalid_unwanted;
+    d->nul_encoded_terminates = c->nul_encoded_terminates;
+    d->nul_encoded_unwanted = (enum htp_unwanted_t) c->nul_encoded_unwanted;
+    d->utf8_invalid_unwanted = (enum htp_unwanted_t) c->utf8_invalid_unwanted;
+    d->utf8_convert_bestfit = c->utf8_convert_bestfit;
+    d->bestfit_map = map;
+    d->bestfit_replacement_byte = c->bestfit_replacement_byte;
+    c12_tx.cfg = &c12_cfg;
+    c12_tx.flags = flags0;
+    c12_tx.response_status_expected_number = status0;
+}
+#define C12_REFCFG_LEGAL(c) (C12_UNWANTED_OK((c).path_separators_encoded_unwanted) && C12_UNWANTED_OK((c).nul_raw_unwanted) && \
+    C12_UNWANTED_OK((c).control_chars_unwanted) && C12_UNWANTED_OK((c).u_encoding_unwanted) && \
+    C12_HANDLING_OK((c).url_encoding_invalid_handling) && C12_UNWANTED_OK((c).url_encoding_invalid_unwanted) && \
+    C12_UNWANTED_OK((c).nul_encoded_unwanted) && C12_UNWANTED_OK((c).utf8_invalid_unwanted))
+/* the reference's indicator bits are the library's */
+#define C12_FLAGS_AGREE (RF_PATH_ENCODED_NUL == HTP_PATH_ENCODED_NUL && RF_PATH_RAW_NUL == HTP_PATH_RAW_NUL && \
+    RF_PATH_INVALID_ENCODING == HTP_PATH_INVALID_ENCODING && RF_PATH_OVERLONG_U == HTP_PATH_OVERLONG_U && \
+    RF_PATH_ENCODED_SEPARATOR == HTP_PATH_ENCODED_SEPARATOR && RF_PATH_UTF8_VALID == HTP_PATH_UTF8_VALID && \
+    RF_PATH_UTF8_INVALID == HTP_PATH_UTF8_INVALID && RF_PATH_UTF8_OVERLONG == HTP_PATH_UTF8_OVERLONG && \
+    RF_PATH_HALF_FULL_RANGE == HTP_PATH_HALF_FULL_RANGE && RF_URLEN_ENCODED_NUL == HTP_URLEN_ENCODED_NUL && \
+    RF_URLEN_INVALID_ENCODING == HTP_URLEN_INVALID_ENCODING && RF_URLEN_OVERLONG_U == HTP_URLEN_OVERLONG_U && \
+    RF_URLEN_HALF_FULL_RANGE == HTP_URLEN_HALF_FULL_RANGE && RF_URLEN_RAW_NUL == HTP_URLEN_RAW_NUL && \
+    RF_PRESERVE_PERCENT == HTP_URL_DECODE_PRESERVE_PERCENT && RF_REMOVE_PERCENT == HTP_URL_DECODE_REMOVE_PERCENT && \
+    RF_PROCESS_INVALID == HTP_URL_DECODE_PROCESS_INVALID && RF_IGNORE == HTP_UNWANTED_IGNORE)
+#endif
+
 #endif
